@@ -319,6 +319,7 @@ func HostileValues() []any {
 		uint(3), uint(math.MaxUint64), uint8(255), uint16(65535), uint32(math.MaxUint32), uint64(math.MaxUint64), uint64(1 << 63),
 		decimal128.MustParse("1.5"), decimal128.MustParse("3"), decimal128.NaN(), decimal128.Inf(1), decimal128.Inf(-1), decimal128.MustParse("-0"), decimal128.MustParse("1e6000"), decimal128.MustParse("1e-6000"), decimal128.MustParse("9223372036854775808"), decimal128.MustParse("-9223372036854775809"),
 		nilSlice, nilMap, []any{}, map[string]any{}, []any{nil}, []any{json.Number("1"), "a"}, map[string]any{"k": nil},
+		[]any{[]any{nil, json.Number("1")}}, []any{[]any{"k"}}, []any{[]any{}}, []any{[]any{json.Number("1"), nil}}, []any{nil, "a"}, []any{[]any{"a", nil}, nil},
 		foreign{1}, &foreign{2}, &i, make(chan int), func() {}, []string{"a"}, map[int]any{1: 2}, time.Unix(0, 0), []byte("x"), map[string]string{"a": "b"}, []int{1}, errors.New("e"), uintptr(1), complex(1, 2), [2]any{1, 2}, struct{}{},
 	}
 }
